@@ -401,6 +401,13 @@ impl<'a, T: Evaluate> PiecewiseEvaluator<'a, T> {
         // point traversing anything earlier. If the value is lower, a
         // previous segment might have been better suited so we try
         // and find the crossing point segment.
+        //
+        // NaN compares false with everything: don't let it move the cursor or
+        // become the remembered argument. Like direct evaluation, use the last
+        // segment for it.
+        if x.is_nan() {
+            return self.last.evaluate(x);
+        }
         let seg = if x >= self.last_evaluation {
             // Happy path, we're going forward.
             loop {
